@@ -263,13 +263,18 @@ class ExprCompiler(CompilerBase, AstVisitor[Wire]):
         return self.dfg[node.place]
 
     def visit_GlobalName(self, node: GlobalName) -> Wire:
-        defn = ENGINE.get_checked(node.def_id)
-        if isinstance(defn, CallableDef) and defn.ty.parametrized:
-            # TODO: This should be caught during checking
-            err = UnsupportedError(
-                node, "Polymorphic functions as dynamic higher-order values"
-            )
-            raise GuppyError(err)
+        # Nested functions that refer to themselves are registered in `ctx.compiled`
+        # by `compile_local_func_def` and have no frame in the `DEF_STORE`, so
+        # `ENGINE.get_checked` would fail for them (same shortcut as in
+        # `build_compiled_def`). They are never generic.
+        if (node.def_id, ()) not in self.ctx.compiled:
+            defn = ENGINE.get_checked(node.def_id)
+            if isinstance(defn, CallableDef) and defn.ty.parametrized:
+                # TODO: This should be caught during checking
+                err = UnsupportedError(
+                    node, "Polymorphic functions as dynamic higher-order values"
+                )
+                raise GuppyError(err)
 
         defn, [] = self.ctx.build_compiled_def(node.def_id, type_args=[])
         assert isinstance(defn, CompiledValueDef)
